@@ -498,6 +498,7 @@ pub fn coordinator(check: &dyn Check, a: &RunArgs) -> i32 {
     let _ = std::fs::remove_dir_all(&work);
     std::fs::create_dir_all(&work).unwrap();
     let replay_dir = out_dir().join("replay").join(id);
+    let _ = std::fs::remove_dir_all(&replay_dir);
     std::fs::create_dir_all(&replay_dir).unwrap();
     let exe = std::env::current_exe().unwrap();
     let budget = a
